@@ -1474,13 +1474,156 @@ Proof.
 Qed.
 
 (* ================================================================== *)
-(* Part 9: the model's own reduce_cycle, steady state                   *)
+(* Part 9: every cycle of the model's own reduce_cycle                  *)
 
-Section Steady.
+(* ---- capacity ---- *)
+Lemma pow2_ge_spec : forall fuel n a, n <= 2 ^ (a + fuel) ->
+  exists j, pow2_ge fuel n (2 ^ a) = 2 ^ j /\ n <= 2 ^ j.
+Proof.
+  induction fuel as [|fuel IH]; intros n a H.
+  - rewrite Nat.add_0_r in H. exists a. split; [reflexivity|exact H].
+  - cbn [pow2_ge]. destruct (n <=? 2 ^ a) eqn:E.
+    + apply Nat.leb_le in E. exists a. split; [reflexivity|exact E].
+    + change (2 * 2 ^ a) with (2 ^ S a). apply IH. replace (S a + fuel) with (a + S fuel) by lia. exact H.
+Qed.
+
+Lemma bit_ceil_spec n : exists j, bit_ceil n = 2 ^ j /\ n <= 2 ^ j.
+Proof.
+  unfold bit_ceil. change 1 with (2 ^ 0). apply pow2_ge_spec. simpl. pose proof (pow2_lt_lin n). lia.
+Qed.
+
+(* c is the capacity of a tree of height k (capacity 0 - never grown - behaves like capacity 1) *)
+Definition capk (c k : nat) : Prop := c = 2 ^ k \/ (c = 0 /\ k = 0).
+
+Lemma capk_inj c k k' : capk c k -> capk c k' -> k = k'.
+Proof.
+  intros [H|[H1 H2]] [G|[G1 G2]]; subst; try lia.
+  - apply (Nat.pow_inj_r 2); [lia|exact G].
+  - pose proof (pow2_pos k). lia.
+  - pose proof (pow2_pos k'). lia.
+Qed.
+
+Lemma capk_internals c k : capk c k -> internals c = internals (2 ^ k).
+Proof. intros [->|[-> ->]]; reflexivity. Qed.
+
+Section Capacity.
+Variable cf : cfg.
+
+Lemma next_capacity_spec cap live k0 : capk cap k0 ->
+  exists k, capk (next_capacity cf cap live) k /\ live <= 2 ^ k /\ (c_has_zero cf = true -> 1 <= k).
+Proof.
+  intros Hc. unfold next_capacity.
+  set (M := if c_has_zero cf then 2 else 0).
+  set (X := if live =? 0 then 0 else bit_ceil live).
+  assert (HX : live <= X /\ (X = 0 \/ exists j, X = 2 ^ j)).
+  { unfold X. destruct (live =? 0) eqn:E; [apply Nat.eqb_eq in E; split; [lia|left; reflexivity]|].
+    destruct (bit_ceil_spec live) as [j [H1 H2]]. split; [lia|right; exists j; exact H1]. }
+  destruct HX as [HX1 HX2].
+  assert (HM : M = 0 \/ exists j, M = 2 ^ j).
+  { unfold M. destruct (c_has_zero cf); [right; exists 1; reflexivity|left; reflexivity]. }
+  assert (HC : cap = 0 \/ exists j, cap = 2 ^ j).
+  { destruct Hc as [->|[-> _]]; [right; exists k0; reflexivity|left; reflexivity]. }
+  set (c := Nat.max cap (Nat.max M X)).
+  assert (Hc2 : c = 0 \/ exists j, c = 2 ^ j).
+  { unfold c. destruct (Nat.max_dec cap (Nat.max M X)) as [-> | ->]; [exact HC|].
+    destruct (Nat.max_dec M X) as [-> | ->]; assumption. }
+  assert (Hge : live <= c /\ M <= c) by (unfold c; lia).
+  destruct Hc2 as [H0|[j Hj]].
+  - exists 0. split; [right; split; [exact H0|reflexivity]|]. split; [lia|].
+    intros Hz. unfold M in Hge. rewrite Hz in Hge. lia.
+  - exists j. split; [left; exact Hj|]. split; [lia|].
+    intros Hz. unfold M in Hge. rewrite Hz in Hge. destruct j; [simpl in Hj; lia|lia].
+Qed.
+
+End Capacity.
+
+(* ---- the leaf-map half of reduce_reconcile ---- *)
+Lemma reconcile_full_list_frame st L :
+  let '(L', sl, stc) := reconcile_full_list st L in
+  (forall j, ~ In j sl -> nth_opt j L' = nth_opt j L) /\ (stc = false -> L' = L /\ sl = []).
+Proof.
+  unfold reconcile_full_list.
+  apply (fold_left_inv (rc_frame L)); [|split; [reflexivity|auto]].
+  intros [[l sl] stc] e [H1 H2]. cbn beta iota.
+  destruct (key_index (fst (snd e)) l); [split; assumption|].
+  split; [|discriminate]. intros j Hj. rewrite in_app_iff in Hj.
+  rewrite nth_opt_snoc_other; [apply H1; tauto|]. intros ->. apply Hj. right. left. reflexivity.
+Qed.
+
+Section Step.
 Variable f : Z -> Z -> Z.
 Variable cf : cfg.
 Hypothesis f_assoc : forall a b c, f (f a b) c = f a (f b c).
 Hypothesis Hlift : c_lifted cf = true.
+
+Lemma reconcile_leaves_spec st d coll s L' sl stc full pr :
+  reconcile_leaves cf st d coll s = (L', sl, stc, full, pr) ->
+  (full = false -> forall j, ~ In j sl -> nth_opt j L' = nth_opt j (r_leaves s)) /\
+  (stc = false -> L' = r_leaves s /\ sl = []) /\
+  (r_published s = false -> full = true).
+Proof.
+  unfold reconcile_leaves. intros E.
+  destruct (available cf st).
+  - destruct (negb (r_primed s) || coll) eqn:E1.
+    + destruct (negb (r_primed s)) eqn:E2.
+      * destruct (c_list cf).
+        -- pose proof (reconcile_full_list_frame st (r_leaves s)) as Hf.
+           destruct (reconcile_full_list st (r_leaves s)) as [[l sl0] stc0]. destruct Hf as [F1 F2].
+           injection E as <- <- <- <- <-. rewrite orb_true_r. repeat split; try discriminate; auto; apply F2; assumption.
+        -- unfold reconcile_full in E. injection E as <- <- <- <- <-. rewrite orb_true_r.
+           repeat split; try discriminate; auto.
+      * pose proof (reconcile_sparse_frame st d (r_leaves s)) as Hf.
+        destruct (reconcile_sparse st d (r_leaves s)) as [[l sl0] stc0]. destruct Hf as [F1 F2].
+        injection E as <- <- <- <- <-. rewrite orb_false_r.
+        repeat split; auto; try (apply F2; assumption). intros ->. reflexivity.
+    + injection E as <- <- <- <- <-. repeat split; auto. intros ->. reflexivity.
+  - destruct (r_primed s || negb (length (r_leaves s) =? 0)).
+    + injection E as <- <- <- <- <-. repeat split; try discriminate; auto.
+    + injection E as <- <- <- <- <-. repeat split; auto. intros ->. reflexivity.
+Qed.
+
+(* rebuild_structure with the lifted kernel, field by field *)
+Lemma rebuild_lifted st s L' sl full :
+  let c := next_capacity cf (r_cap s) (length L') in
+  let bank_changed := negb (c =? r_cap s) in
+  let combs0 := if bank_changed then repeat None (internals c) else r_combs s in
+  let positions := if full || bank_changed then down_from (length combs0)
+                   else sort_desc_unique (concat (map (leaf_path c (length combs0)) sl)) in
+  exists combs1 cr rt,
+    fold_left (phase1_at cf c (length L')) positions (combs0, [], []) = (combs1, cr, rt) /\
+    let rb := rebuild_structure cf st s L' sl full in
+    r_leaves (rb_state rb) = L' /\ r_cap (rb_state rb) = c /\ r_combs (rb_state rb) = combs1 /\
+    r_published (rb_state rb) = true /\
+    r_pub (rb_state rb) = agg_src cf L' combs1 (root_aggregate (c_has_zero cf) c (length L') (length combs1)) /\
+    rb_positions rb = positions.
+Proof.
+  cbv zeta. unfold rebuild_structure. cbv zeta. rewrite Hlift.
+  destruct (fold_left (phase1_at cf (next_capacity cf (r_cap s) (length L')) (length L'))
+     (if full || negb (next_capacity cf (r_cap s) (length L') =? r_cap s)
+      then down_from (length (if negb (next_capacity cf (r_cap s) (length L') =? r_cap s)
+                              then repeat None (internals (next_capacity cf (r_cap s) (length L'))) else r_combs s))
+      else sort_desc_unique (concat (map (leaf_path (next_capacity cf (r_cap s) (length L'))
+             (length (if negb (next_capacity cf (r_cap s) (length L') =? r_cap s)
+                      then repeat None (internals (next_capacity cf (r_cap s) (length L'))) else r_combs s))) sl)))
+     (if negb (next_capacity cf (r_cap s) (length L') =? r_cap s)
+      then repeat None (internals (next_capacity cf (r_cap s) (length L'))) else r_combs s, [], []))
+    as [[combs1 cr] rt] eqn:Eph.
+  exists combs1, cr, rt. split; [reflexivity|]. cbn. repeat split; reflexivity.
+Qed.
+
+(* the invariant between cycles *)
+Definition pub_inv (st : store) (s : rstate) (vals : list Z) : Prop :=
+  exists k, capk (r_cap s) k /\ tree_inv f cf st (r_leaves s) vals k (r_combs s) /\
+            r_pub s = agg_src cf (r_leaves s) (r_combs s)
+                        (root_aggregate (c_has_zero cf) (2 ^ k) (length (r_leaves s)) (length (r_combs s))).
+
+Definition cycle_inv (st : store) (s : rstate) (vals : list Z) : Prop :=
+  if r_published s then pub_inv st s vals else (r_cap s = 0 /\ r_combs s = []).
+
+Lemma pub_inv_result st s vals : pub_inv st s vals -> result_of cf st s = spec_result f cf vals.
+Proof.
+  intros [k [_ [T P]]]. unfold result_of. rewrite P. apply (tree_inv_result f cf st _ vals k _ T).
+Qed.
 
 (* the dense indices of the leaves whose value ticked *)
 Definition ticked_leaves (d : delta) (L' : list leaf) : list nat :=
@@ -1497,82 +1640,479 @@ Proof.
   simpl. destruct (key_index (snd sk) L'); simpl; rewrite IH; reflexivity.
 Qed.
 
-(* The model's own reduce_cycle, in the steady state (already primed and published, the
-   collection ticked, no capacity growth), lifted kernel: from the invariant to the invariant, and
-   the published result is the fold over the new live values. *)
-Theorem reduce_cycle_steady st0 st d zero_event s k vals L' sl stc vals' :
-  r_primed s = true -> r_published s = true -> r_cap s = 2 ^ k ->
-  (if c_list cf then true else st_valid st) = true ->
-  tree_inv f cf st0 (r_leaves s) vals k (r_combs s) ->
-  r_pub s = agg_src cf (r_leaves s) (r_combs s)
-              (root_aggregate (c_has_zero cf) (2 ^ k) (length (r_leaves s)) (length (r_combs s))) ->
-  reconcile_sparse st d (r_leaves s) = (L', sl, stc) ->
-  leaf_vals st L' vals' -> length L' <= 2 ^ k ->
-  Nat.max (2 ^ k) (Nat.max (if c_has_zero cf then 2 else 0) (if length L' =? 0 then 0 else bit_ceil (length L'))) = 2 ^ k ->
-  (forall i, ~ In i sl -> ~ In i (ticked_leaves d L') -> nth_opt i vals' = nth_opt i vals) ->
-  let s2 := o_state (reduce_cycle f cf st d true zero_event s) in
-  r_leaves s2 = L' /\ r_cap s2 = 2 ^ k /\
-  r_primed s2 = true /\ r_published s2 = true /\
-  tree_inv f cf st L' vals' k (r_combs s2) /\
-  r_pub s2 = agg_src cf L' (r_combs s2)
-               (root_aggregate (c_has_zero cf) (2 ^ k) (length L') (length (r_combs s2))) /\
-  result_of cf st s2 = spec_result f cf vals'.
+Definition ticked_eff (st : store) (d : delta) (coll : bool) (L' : list leaf) : list nat :=
+  if coll && available cf st then ticked_leaves d L' else [].
+
+(* EVERY evaluated cycle of reduce_cycle (first observation, not-yet-valid collection, steady state,
+   full rebuild, growth with bank swap): invariant to invariant, result = fold.  The hypotheses about
+   the cycle concern the source collection only. *)
+Theorem reduce_cycle_correct st0 st d coll zero s vals L' sl stc full pr vals' :
+  cycle_inv st0 s vals -> coll || zero = true ->
+  reconcile_leaves cf st d coll s = (L', sl, stc, full, pr) ->
+  leaf_vals st L' vals' ->
+  (full && (stc || negb (r_published s)) = false ->
+     forall i, ~ In i sl -> ~ In i (ticked_eff st d coll L') -> nth_opt i vals' = nth_opt i vals) ->
+  let s2 := o_state (reduce_cycle f cf st d coll zero s) in
+  r_published s2 = true /\ r_leaves s2 = L' /\ pub_inv st s2 vals' /\ result_of cf st s2 = spec_result f cf vals'.
 Proof.
-  intros Hpr Hpub Hcap Hav Hinv Hpubsrc Hrec Hvals' Hlen' Hnogrow Hv.
-  pose proof (reconcile_sparse_frame st d (r_leaves s)) as Hframe. rewrite Hrec in Hframe.
-  destruct Hframe as [HL Hns].
-  unfold reduce_cycle. cbn [orb negb]. rewrite Hlift.
-  unfold reconcile. cbn [set_combs destroy_previous r_leaves r_cap r_combs r_bank r_prev r_occ r_primed r_published r_pub r_err].
-  rewrite Hav, Hpr, Hpub. cbn [negb orb]. rewrite Hrec.
-  destruct stc.
-  - (* structural: partial rebuild *)
-    cbn [orb].
-    unfold rebuild_structure. cbn [r_leaves r_cap r_combs r_bank r_prev r_occ r_primed r_published r_pub r_err].
-    rewrite Hcap, Hnogrow, Nat.eqb_refl. cbn [negb orb andb]. rewrite Hlift.
-    destruct (fold_left (phase1_at cf (2 ^ k) (length L'))
-               (sort_desc_unique (concat (map (leaf_path (2 ^ k) (length (r_combs s))) sl)))
-               (r_combs s, [], [])) as [[combs1 cr] rt] eqn:Eph.
-    cbn [rb_state rb_positions r_leaves r_cap r_combs r_primed r_published r_pub].
-    unfold eval_positions. cbn [r_leaves r_cap r_combs]. rewrite Hav. cbn [orb negb andb].
+  intros Hinv Hev HRL Hvals' Hv.
+  destruct (reconcile_leaves_spec st d coll s L' sl stc full pr HRL) as [HL [Hns Hunp]].
+  assert (Hgoal : let s2 := o_state (reduce_cycle f cf st d coll zero s) in
+                  r_published s2 = true /\ r_leaves s2 = L' /\ pub_inv st s2 vals').
+  2:{ cbv zeta in *. destruct Hgoal as [G1 [G2 G3]]. repeat split; try assumption. apply pub_inv_result. exact G3. }
+  unfold reduce_cycle. rewrite Hev. cbn [negb]. rewrite Hlift.
+  unfold reconcile.
+  change (reconcile_leaves cf st d coll (set_combs (destroy_previous s) (r_combs (destroy_previous s))))
+    with (reconcile_leaves cf st d coll s).
+  rewrite HRL.
+  cbn [set_combs destroy_previous r_leaves r_cap r_combs r_bank r_prev r_occ r_primed r_published r_pub r_err].
+  destruct (stc || negb (r_published s)) eqn:Erb.
+  - (* rebuild_structure *)
+    match goal with |- context [rebuild_structure cf st ?S L' sl full] => set (s' := S) end.
+    destruct (rebuild_lifted st s' L' sl full) as [combs1 [cr [rt [Eph Hrb]]]].
+    cbv zeta in Hrb. destruct Hrb as [R1 [R2 [R3 [R4 [R5 R6]]]]].
+    change (r_cap s') with (r_cap s) in *. change (r_combs s') with (r_combs s) in *.
+    set (c := next_capacity cf (r_cap s) (length L')) in *.
+    (* what is known about the old capacity and tree *)
+    assert (Hold : exists k0, capk (r_cap s) k0 /\ length (r_combs s) = internals (2 ^ k0) /\
+                     (r_published s = true -> tree_inv f cf st0 (r_leaves s) vals k0 (r_combs s))).
+    { unfold cycle_inv in Hinv. destruct (r_published s).
+      - destruct Hinv as [k0 [C0 [T0 _]]]. exists k0. split; [exact C0|]. split; [|intros _; exact T0].
+        destruct T0 as [_ _ _ [Hl _] _]. exact Hl.
+      - destruct Hinv as [C0 C1]. exists 0. split; [right; auto|]. split; [rewrite C1; reflexivity|discriminate]. }
+    destruct Hold as [k0 [Ck0 [Hlen0 Htree0]]].
+    destruct (next_capacity_spec cf (r_cap s) (length L') k0 Ck0) as [k [Ck [Hcap Hz]]]. fold c in Ck.
+    cbn [rb_state rb_positions].
+    set (rb := rebuild_structure cf st s' L' sl full) in *.
+    unfold eval_positions. rewrite R1, R2, R3, R6. cbn [negb orb andb].
     rewrite cand_mod_eq.
-    destruct (cycle_partial f cf f_assoc Hlift st0 st k (r_leaves s) vals L' vals' (r_combs s) sl
-                (ticked_leaves d L')
-                (if zero_event && (length L' =? 1) && present combs1 0 then [0] else [])
-                combs1 cr rt Hinv Hvals' Hlen' HL Hv Eph) as [combs2 [log [w [Eev [Tinv Hpres]]]]].
-    unfold visited in Eev. rewrite Eev.
-    cbn [o_state set_combs r_leaves r_cap r_combs r_pub].
-    assert (Hlen12 : length combs1 = length combs2).
-    { destruct Tinv as [_ _ _ [Hl2 _] _].
-      destruct (phase1_spec cf (2 ^ k) (length L') _ _ _ _ _ _ _ Eph) as [Hl1 _].
-      destruct Hinv as [_ _ _ [Hl0 _] _]. lia. }
-    assert (Hp2 : agg_src cf L' combs1 (root_aggregate (c_has_zero cf) (2 ^ k) (length L') (length combs1)) =
-                  agg_src cf L' combs2 (root_aggregate (c_has_zero cf) (2 ^ k) (length L') (length combs2))).
-    { rewrite Hlen12. symmetry. apply agg_src_presence. exact Hpres. }
-    split; [reflexivity|]. split; [reflexivity|]. split; [reflexivity|]. split; [reflexivity|].
-    split; [exact Tinv|]. split; [exact Hp2|].
-    unfold result_of. cbn [r_combs r_pub]. rewrite Hp2.
-    apply (tree_inv_result f cf st L' vals' k combs2 Tinv).
-  - (* no structural change: the leaves are the same, only values ticked *)
+    assert (Hsort : forall A B C0, sort_desc_unique (A ++ (if coll && available cf st then B else []) ++ C0) =
+                                    sort_desc_unique (A ++ (if coll && available cf st then B else []) ++ C0)) by reflexivity.
+    clear Hsort.
+    (* evaluation list in the [visited] form *)
+    set (dm := ticked_eff st d coll L').
+    assert (Hcm : (if coll && available cf st then concat (map (live_path c combs1) (ticked_leaves d L')) else []) =
+                  concat (map (live_path c combs1) dm)).
+    { unfold dm, ticked_eff. destruct (coll && available cf st); reflexivity. }
+    rewrite Hcm. clear Hcm.
+    assert (Hconv_eval : eval_at f cf st L' c = eval_at f cf st L' (2 ^ k))
+      by (destruct Ck as [->|[-> ->]]; reflexivity).
+    assert (Hconv_ph : phase1_at cf c (length L') = phase1_at cf (2 ^ k) (length L'))
+      by (destruct Ck as [->|[-> ->]]; reflexivity).
+    assert (Hconv_lp : live_path c combs1 = live_path (2 ^ k) combs1)
+      by (destruct Ck as [->|[-> ->]]; reflexivity).
+    assert (Hconv_ra : forall n m, root_aggregate (c_has_zero cf) c n m = root_aggregate (c_has_zero cf) (2 ^ k) n m)
+      by (destruct Ck as [->|[-> ->]]; reflexivity).
+    rewrite Hconv_eval, Hconv_lp. rewrite Hconv_ph in Eph.
+    set (extra := if zero && (length L' =? 1) && present combs1 0 then [0] else []).
+    destruct (full || negb (c =? r_cap s)) eqn:Efull.
+    + (* full rebuild: first publication, growth, or a full reconcile *)
+      assert (Hlen : length (if negb (c =? r_cap s) then repeat None (internals c) else r_combs s) = internals (2 ^ k)).
+      { destruct (c =? r_cap s) eqn:Ec; cbn [negb].
+        - apply Nat.eqb_eq in Ec. rewrite <- Ec in Ck0. rewrite (capk_inj c k k0 Ck Ck0). exact Hlen0.
+        - rewrite repeat_length. apply capk_internals. exact Ck. }
+      destruct (cycle_full f cf f_assoc Hlift st k L' vals' _ combs1 cr rt dm extra Hvals' Hcap Hz Hlen Eph)
+        as [combs2 [log [w [Eev [Tinv Hpres]]]]].
+      unfold visited in Eev. rewrite Eev.
+      cbn [o_state set_combs r_leaves r_cap r_combs r_pub r_published].
+      split; [exact R4|]. split; [exact R1|].
+      exists k. cbn [set_combs r_leaves r_cap r_combs r_pub]. rewrite R1, R2.
+      split; [exact Ck|]. split; [exact Tinv|].
+      rewrite R5, Hconv_ra.
+      assert (Hlen12 : length combs1 = length combs2).
+      { destruct Tinv as [_ _ _ [Hl2 _] _].
+        destruct (phase1_spec cf (2 ^ k) (length L') _ _ _ _ _ _ _ Eph) as [Hl1 _]. lia. }
+      rewrite Hlen12. symmetry. apply agg_src_presence. exact Hpres.
+    + (* partial rebuild: capacity unchanged, only the paths of the structural leaves *)
+      apply orb_false_iff in Efull. destruct Efull as [Ef Ec0]. apply negb_false_iff in Ec0.
+      pose proof Ec0 as Ec. apply Nat.eqb_eq in Ec.
+      subst full. rewrite Ec0 in Eph |- *. cbn [negb] in Eph |- *.
+      assert (Hpub : r_published s = true).
+      { destruct (r_published s) eqn:Ep; [reflexivity|]. specialize (Hunp eq_refl). discriminate. }
+      specialize (Htree0 Hpub). rewrite <- Ec in Ck0. pose proof (capk_inj c k k0 Ck Ck0) as Hk. subst k0.
+      assert (Hconv_path : leaf_path c (length (r_combs s)) = leaf_path (2 ^ k) (length (r_combs s)))
+        by (destruct Ck as [->|[-> ->]]; reflexivity).
+      rewrite Hconv_path in Eph |- *.
+      destruct (cycle_partial f cf f_assoc Hlift st0 st k (r_leaves s) vals L' vals' (r_combs s) sl dm extra
+                  combs1 cr rt Htree0 Hvals' Hcap (HL eq_refl) (Hv eq_refl) Eph)
+        as [combs2 [log [w [Eev [Tinv Hpres]]]]].
+      unfold visited in Eev. rewrite Eev.
+      cbn [o_state set_combs r_leaves r_cap r_combs r_pub r_published].
+      split; [exact R4|]. split; [exact R1|].
+      exists k. cbn [set_combs r_leaves r_cap r_combs r_pub]. rewrite R1, R2.
+      split; [exact Ck|]. split; [exact Tinv|].
+      rewrite R5, Hconv_ra.
+      assert (Hlen12 : length combs1 = length combs2).
+      { destruct Tinv as [_ _ _ [Hl2 _] _].
+        destruct (phase1_spec cf (2 ^ k) (length L') _ _ _ _ _ _ _ Eph) as [Hl1 _]. lia. }
+      rewrite Hlen12. symmetry. apply agg_src_presence. exact Hpres.
+  - (* no rebuild: nothing structural, already published: only values ticked *)
+    apply orb_false_iff in Erb. destruct Erb as [-> Epub]. apply negb_false_iff in Epub.
     destruct (Hns eq_refl) as [-> ->].
-    cbn [orb]. cbn [r_leaves r_cap r_combs r_primed r_published r_pub].
-    unfold eval_positions. cbn [r_leaves r_cap r_combs]. rewrite Hav. cbn [orb negb andb].
-    rewrite cand_mod_eq. rewrite Hcap.
-    destruct (cycle_partial f cf f_assoc Hlift st0 st k (r_leaves s) vals (r_leaves s) vals' (r_combs s) []
-                (ticked_leaves d (r_leaves s))
-                (if zero_event && (length (r_leaves s) =? 1) && present (r_combs s) 0 then [0] else [])
-                (r_combs s) [] [] Hinv Hvals' Hlen' HL Hv eq_refl) as [combs2 [log [w [Eev [Tinv Hpres]]]]].
+    assert (Hpi : pub_inv st0 s vals) by (unfold cycle_inv in Hinv; rewrite Epub in Hinv; exact Hinv).
+    destruct Hpi as [k [Ck [Tinv0 Hpub0]]].
+    cbn [r_leaves r_cap r_combs r_primed r_published r_pub].
+    unfold eval_positions. cbn [r_leaves r_cap r_combs negb orb andb].
+    rewrite cand_mod_eq.
+    set (dm := ticked_eff st d coll (r_leaves s)).
+    assert (Hcm : (if coll && available cf st then concat (map (live_path (r_cap s) (r_combs s)) (ticked_leaves d (r_leaves s))) else []) =
+                  concat (map (live_path (r_cap s) (r_combs s)) dm)).
+    { unfold dm, ticked_eff. destruct (coll && available cf st); reflexivity. }
+    rewrite Hcm. clear Hcm.
+    assert (Hconv_eval : eval_at f cf st (r_leaves s) (r_cap s) = eval_at f cf st (r_leaves s) (2 ^ k))
+      by (destruct Ck as [->|[-> ->]]; reflexivity).
+    assert (Hconv_lp : live_path (r_cap s) (r_combs s) = live_path (2 ^ k) (r_combs s))
+      by (destruct Ck as [->|[-> ->]]; reflexivity).
+    rewrite Hconv_eval, Hconv_lp.
+    set (extra := if zero && (length (r_leaves s) =? 1) && present (r_combs s) 0 then [0] else []).
+    assert (Hcap : length (r_leaves s) <= 2 ^ k) by (destruct Tinv0; assumption).
+    destruct (cycle_partial f cf f_assoc Hlift st0 st k (r_leaves s) vals (r_leaves s) vals' (r_combs s) [] dm extra
+                (r_combs s) [] [] Tinv0 Hvals' Hcap (fun i _ => eq_refl) (Hv (andb_false_r full)) eq_refl)
+      as [combs2 [log [w [Eev [Tinv Hpres]]]]].
     unfold visited in Eev. cbn [map concat] in Eev. change (sort_desc_unique []) with (@nil nat) in Eev.
-    cbn [filter app] in Eev. cbn [app]. rewrite Eev.
-    cbn [o_state set_combs r_leaves r_cap r_combs r_pub r_primed r_published].
+    cbn [filter app] in Eev. cbn [app]. rewrite Hev. cbn [negb]. rewrite Eev.
+    cbn [o_state set_combs r_leaves r_cap r_combs r_pub r_published].
+    split; [exact Epub|]. split; [reflexivity|].
+    exists k. cbn [set_combs r_leaves r_cap r_combs r_pub].
+    split; [exact Ck|]. split; [exact Tinv|].
+    rewrite Hpub0.
     assert (Hlen12 : length (r_combs s) = length combs2).
-    { destruct Tinv as [_ _ _ [Hl2 _] _]. destruct Hinv as [_ _ _ [Hl0 _] _]. lia. }
-    assert (Hp2 : r_pub s = agg_src cf (r_leaves s) combs2
-                    (root_aggregate (c_has_zero cf) (2 ^ k) (length (r_leaves s)) (length combs2))).
-    { rewrite Hpubsrc, Hlen12. symmetry. apply agg_src_presence. exact Hpres. }
-    split; [reflexivity|]. split; [reflexivity|]. split; [reflexivity|]. split; [reflexivity|].
-    split; [exact Tinv|]. split; [exact Hp2|].
-    unfold result_of. cbn [r_combs r_pub]. rewrite Hp2.
-    apply (tree_inv_result f cf st (r_leaves s) vals' k combs2 Tinv).
+    { destruct Tinv as [_ _ _ [Hl2 _] _]. destruct Tinv0 as [_ _ _ [Hl0 _] _]. lia. }
+    rewrite Hlen12. symmetry. apply agg_src_presence. exact Hpres.
 Qed.
 
-End Steady.
+
+(* ---- whole histories ---- *)
+
+(* one engine cycle as seen by the reduce node: the collection's store and slot-ordered delta after
+   the cycle's mutations, which inputs ticked, and (ghost) the values of the reconciled leaves in
+   dense order *)
+Record cyc := mkCyc { cy_store : store; cy_delta : delta; cy_coll : bool; cy_zero : bool; cy_vals : list Z }.
+
+Definition step (s : rstate) (c : cyc) : rstate :=
+  o_state (reduce_cycle f cf (cy_store c) (cy_delta c) (cy_coll c) (cy_zero c) s).
+
+Definition run (h : list cyc) : rstate := fold_left step h rstate0.
+
+(* The hypotheses about the SOURCE collection (property C05, coherence of the collection with its
+   delta), stated on one cycle: every leaf the reconciliation keeps has a value in the new store, and
+   - unless the tree is rebuilt in full - the values of leaves that are neither structural nor ticked
+   are the ones they had.  A cycle in which nothing ticked leaves the values alone. *)
+Definition src_ok (s : rstate) (vals : list Z) (c : cyc) : Prop :=
+  if cy_coll c || cy_zero c then
+    let '(L', sl, stc, full, _) := reconcile_leaves cf (cy_store c) (cy_delta c) (cy_coll c) s in
+    leaf_vals (cy_store c) L' (cy_vals c) /\
+    (full && (stc || negb (r_published s)) = false ->
+       forall i, ~ In i sl -> ~ In i (ticked_eff (cy_store c) (cy_delta c) (cy_coll c) L') ->
+                 nth_opt i (cy_vals c) = nth_opt i vals)
+  else cy_vals c = vals /\ (r_published s = true -> leaf_vals (cy_store c) (r_leaves s) vals).
+
+Fixpoint hist_ok (s : rstate) (vals : list Z) (h : list cyc) : Prop :=
+  match h with
+  | [] => True
+  | c :: r => src_ok s vals c /\ hist_ok (step s c) (cy_vals c) r
+  end.
+
+Definition final (a : store * list Z) (h : list cyc) : store * list Z :=
+  fold_left (fun _ c => (cy_store c, cy_vals c)) h a.
+
+Lemma step_inv st s vals c : cycle_inv st s vals -> src_ok s vals c ->
+  cycle_inv (cy_store c) (step s c) (cy_vals c).
+Proof.
+  intros Hinv Hsrc. unfold src_ok in Hsrc. unfold step.
+  destruct (cy_coll c || cy_zero c) eqn:Ev.
+  - destruct (reconcile_leaves cf (cy_store c) (cy_delta c) (cy_coll c) s) as [[[[L' sl] stc] full] pr] eqn:HRL.
+    destruct Hsrc as [Hv1 Hv2].
+    destruct (reduce_cycle_correct st (cy_store c) (cy_delta c) (cy_coll c) (cy_zero c) s vals L' sl stc full pr
+                (cy_vals c) Hinv Ev HRL Hv1 Hv2) as [G1 [G2 [G3 G4]]].
+    unfold cycle_inv. rewrite G1. exact G3.
+  - unfold reduce_cycle. rewrite Ev. cbn [negb o_state].
+    destruct Hsrc as [-> Hl]. unfold cycle_inv in *. destruct (r_published s); [|exact Hinv].
+    destruct Hinv as [k [C [T P]]]. exists k. split; [exact C|]. split; [|exact P].
+    destruct T as [T1 T2 T3 T4 T5]. constructor; try assumption. apply Hl. reflexivity.
+Qed.
+
+Lemma run_inv : forall h st s vals, cycle_inv st s vals -> hist_ok s vals h ->
+  cycle_inv (fst (final (st, vals) h)) (fold_left step h s) (snd (final (st, vals) h)).
+Proof.
+  induction h as [|c r IH]; intros st s vals Hinv Hok; [exact Hinv|].
+  destruct Hok as [H1 H2]. cbn [fold_left final]. apply IH; [|exact H2].
+  apply (step_inv st s vals c); assumption.
+Qed.
+
+(* reduce_eq_fold: for EVERY history of cycles (adds, swap-last removes, updates, several per cycle,
+   empty ticks, zero ticks, shrink to empty and regrow, any capacity growth) from the empty reduction,
+   once the node has published, the published root is the fold of f over the values of the live
+   leaves in dense order, with the zero rules. *)
+Theorem run_eq_fold h : hist_ok rstate0 [] h -> r_published (run h) = true ->
+  result_of cf (fst (final (store0, []) h)) (run h) = spec_result f cf (snd (final (store0, []) h)).
+Proof.
+  intros Hok Hpub.
+  assert (H0 : cycle_inv store0 rstate0 []) by (unfold cycle_inv; cbn; split; reflexivity).
+  pose proof (run_inv h store0 rstate0 [] H0 Hok) as Hinv. fold (run h) in Hinv.
+  unfold cycle_inv in Hinv. rewrite Hpub in Hinv. apply pub_inv_result. exact Hinv.
+Qed.
+
+(* every evaluated cycle publishes, and publication is never withdrawn *)
+Lemma step_published st s vals c : cycle_inv st s vals -> src_ok s vals c ->
+  (cy_coll c || cy_zero c = true \/ r_published s = true) -> r_published (step s c) = true.
+Proof.
+  intros Hinv Hsrc Hor. unfold src_ok in Hsrc. unfold step.
+  destruct (cy_coll c || cy_zero c) eqn:Ev.
+  - destruct (reconcile_leaves cf (cy_store c) (cy_delta c) (cy_coll c) s) as [[[[L' sl] stc] full] pr] eqn:HRL.
+    destruct Hsrc as [Hv1 Hv2].
+    destruct (reduce_cycle_correct st (cy_store c) (cy_delta c) (cy_coll c) (cy_zero c) s vals L' sl stc full pr
+                (cy_vals c) Hinv Ev HRL Hv1 Hv2) as [G1 _]. exact G1.
+  - unfold reduce_cycle. rewrite Ev. cbn [negb o_state]. destruct Hor as [Hc|Hp]; [discriminate|exact Hp].
+Qed.
+
+End Step.
+
+(* order independence over whole histories, associative-commutative combiner *)
+Theorem run_order_independent f cf :
+  (forall a b c, f (f a b) c = f a (f b c)) -> (forall a b, f a b = f b a) -> c_lifted cf = true ->
+  forall h1 h2, hist_ok f cf rstate0 [] h1 -> hist_ok f cf rstate0 [] h2 ->
+  r_published (run f cf h1) = true -> r_published (run f cf h2) = true ->
+  Permutation (snd (final (store0, []) h1)) (snd (final (store0, []) h2)) ->
+  result_of cf (fst (final (store0, []) h1)) (run f cf h1) = result_of cf (fst (final (store0, []) h2)) (run f cf h2).
+Proof.
+  intros Ha Hc Hl h1 h2 O1 O2 P1 P2 HP.
+  rewrite (run_eq_fold f cf Ha Hl h1 O1 P1), (run_eq_fold f cf Ha Hl h2 O2 P2).
+  apply spec_result_perm; assumption.
+Qed.
+
+(* ---- non-vacuity of the history theorem ---- *)
+(* a concrete three-cycle history produced by the slot-store model: {10:1, 11:2} added, 11 ticks to 64,
+   10 removed (swap-last) *)
+Definition exh_cf : cfg := mkCfg false true false 0%Z.
+Definition exh_sd1 := store_apply_dict [] [(10%Z, 1%Z); (11%Z, 2%Z)] store0.
+Definition exh_st1 := store_validate (fst exh_sd1).
+Definition exh_sd2 := store_apply_dict [] [(11%Z, 64%Z)] exh_st1.
+Definition exh_sd3 := store_apply_dict [10%Z] [] (fst exh_sd2).
+Definition exh_hist : list (cyc) :=
+  [mkCyc exh_st1 (snd exh_sd1) true false [1%Z; 2%Z];
+   mkCyc (fst exh_sd2) (snd exh_sd2) true false [1%Z; 64%Z];
+   mkCyc (fst exh_sd3) (snd exh_sd3) true false [64%Z]].
+
+Lemma exh_ok : hist_ok Z.add exh_cf rstate0 [] exh_hist.
+Proof.
+  unfold exh_hist. cbn [hist_ok]. split; [|split; [|split; [|exact I]]].
+  - unfold src_ok. cbn [cy_coll cy_zero cy_store cy_delta cy_vals orb].
+    vm_compute (reconcile_leaves _ _ _ _ _). cbn beta iota.
+    split.
+    + split; [reflexivity|]. intros i lf H. destruct i as [|[|i]]; cbn in H.
+      * injection H as <-. exists 1%Z. split; reflexivity.
+      * injection H as <-. exists 2%Z. split; reflexivity.
+      * destruct i; discriminate H.
+    + intros Hc. vm_compute in Hc. discriminate Hc.
+  - unfold src_ok. cbn [cy_coll cy_zero cy_store cy_delta cy_vals orb].
+    vm_compute (reconcile_leaves _ _ _ _ _). cbn beta iota.
+    split.
+    + split; [reflexivity|]. intros i lf H. destruct i as [|[|i]]; cbn in H.
+      * injection H as <-. exists 1%Z. split; reflexivity.
+      * injection H as <-. exists 64%Z. split; reflexivity.
+      * destruct i; discriminate H.
+    + intros _ i _ Hi. vm_compute in Hi.
+      destruct i as [|[|i]]; try reflexivity. exfalso. apply Hi. left. reflexivity.
+  - unfold src_ok. cbn [cy_coll cy_zero cy_store cy_delta cy_vals orb].
+    vm_compute (reconcile_leaves _ _ _ _ _). cbn beta iota.
+    split.
+    + split; [reflexivity|]. intros i lf H. destruct i as [|i]; cbn in H.
+      * injection H as <-. exists 64%Z. split; reflexivity.
+      * destruct i; discriminate H.
+    + intros _ i Hi _. vm_compute in Hi.
+      destruct i as [|[|i]].
+      * exfalso. apply Hi. left. reflexivity.
+      * exfalso. apply Hi. right. left. reflexivity.
+      * destruct i; reflexivity.
+Qed.
+
+Example exh_result :
+  r_published (run Z.add exh_cf exh_hist) = true /\
+  result_of exh_cf (fst (final (store0, []) exh_hist)) (run Z.add exh_cf exh_hist) = Some 64%Z.
+Proof. vm_compute. split; reflexivity. Qed.
+
+(* ================================================================== *)
+(* Part 10: the number of combiners                                     *)
+
+(* the first leaf of the right half of the combine point at heap position p *)
+Definition mid (k p : nat) : nat :=
+  let d := Nat.log2 (p + 1) in (p + 1 - 2 ^ d) * 2 ^ (k - d) + 2 ^ (k - d - 1).
+
+Lemma mid_pos k j u : j <= k -> u < 2 ^ (k - j) -> mid k (pos k j u) = u * 2 ^ j + 2 ^ (j - 1).
+Proof.
+  intros H1 H2. unfold mid. rewrite (pos_log2 k j u H2).
+  replace (k - (k - j)) with j by lia.
+  replace (pos k j u + 1 - 2 ^ (k - j)) with u by (unfold pos; pose proof (pow2_pos (k - j)); lia).
+  reflexivity.
+Qed.
+
+Lemma mid_odd j u : 1 <= j -> u * 2 ^ j + 2 ^ (j - 1) = (2 * u + 1) * 2 ^ (j - 1).
+Proof. intros H. rewrite (pow2_half j H). lia. Qed.
+
+Lemma odd_pow_inj : forall a b u v, (2 * u + 1) * 2 ^ a = (2 * v + 1) * 2 ^ b -> a = b /\ u = v.
+Proof.
+  induction a as [|a IH]; intros b u v H.
+  - destruct b as [|b]; [simpl in H; lia|]. rewrite pow2_S in H. simpl (2 ^ 0) in H.
+    set (t := (2 * v + 1) * 2 ^ b). assert ((2 * v + 1) * (2 * 2 ^ b) = 2 * t) by (unfold t; lia). lia.
+  - destruct b as [|b].
+    + rewrite pow2_S in H. simpl (2 ^ 0) in H.
+      set (t := (2 * u + 1) * 2 ^ a). assert ((2 * u + 1) * (2 * 2 ^ a) = 2 * t) by (unfold t; lia). lia.
+    + rewrite !pow2_S in H. destruct (IH b u v) as [-> ->]; [lia|auto].
+Qed.
+
+Lemma odd_decomp : forall m, 1 <= m -> exists j u, 1 <= j /\ m = (2 * u + 1) * 2 ^ (j - 1).
+Proof.
+  intros m. induction m as [m IH] using lt_wf_ind. intros Hm.
+  destruct (Nat.Even_or_Odd m) as [[h Hh]|[h Hh]].
+  - destruct (IH h ltac:(lia) ltac:(lia)) as [j [u [Hj Hu]]].
+    exists (S j), u. split; [lia|]. replace (S j - 1) with (S (j - 1)) by lia. rewrite pow2_S. lia.
+  - exists 1, h. split; [lia|]. simpl. lia.
+Qed.
+
+Lemma NoDup_map_inj_in {A B} (g : A -> B) (l : list A) :
+  (forall x y, In x l -> In y l -> g x = g y -> x = y) -> NoDup l -> NoDup (map g l).
+Proof.
+  induction l as [|a r IH]; intros Hinj Hnd; simpl; [constructor|].
+  inversion Hnd as [|? ? Hn Hr]; subst. constructor.
+  - intros Hin. apply in_map_iff in Hin. destruct Hin as [y [Hy1 Hy2]].
+    assert (y = a) by (apply Hinj; simpl; auto). subst. contradiction.
+  - apply IH; [|assumption]. intros x y Hx Hy. apply Hinj; simpl; auto.
+Qed.
+
+Section Count.
+Variable cf : cfg.
+Variable L : list leaf.
+Variable k : nat.
+Hypothesis Hcap : length L <= 2 ^ k.
+Let live := length L.
+Let n := internals (2 ^ k).
+
+Definition needed_list : list nat := filter (needed cf (2 ^ k) live) (seq 0 n).
+
+Lemma needed_list_NoDup : NoDup needed_list.
+Proof. apply NoDup_filter. apply seq_NoDup. Qed.
+
+Lemma in_needed_list p : In p needed_list <-> p < n /\ needed cf (2 ^ k) live p = true.
+Proof. unfold needed_list. rewrite filter_In, in_seq. split; intros [H1 H2]; split; auto; lia. Qed.
+
+(* with two or more live leaves: one combiner per live index 1 .. live-1 (the combine point whose
+   right half starts there), so live - 1 of them *)
+Lemma needed_count_many : 2 <= live -> length needed_list = live - 1.
+Proof.
+  intros Hl.
+  assert (Hmid : forall p, In p needed_list -> exists j u, 1 <= j /\ j <= k /\ u < 2 ^ (k - j) /\ p = pos k j u /\
+                                             mid k p = u * 2 ^ j + 2 ^ (j - 1) /\ mid k p < live).
+  { intros p Hp. apply in_needed_list in Hp. destruct Hp as [Hp1 Hp2].
+    destruct (pos_coords k p Hp1) as [j [u [A1 [A2 [A3 ->]]]]].
+    exists j, u. repeat split; try assumption.
+    - apply mid_pos; assumption.
+    - rewrite mid_pos by assumption.
+      apply (needed_iff cf L k Hcap j u A1 A2 A3) in Hp2. destruct Hp2 as [[_ [_ Hc]]|Hc]; [fold live in Hc; lia|exact Hc]. }
+  rewrite <- (map_length (mid k) needed_list).
+  rewrite <- (seq_length (live - 1) 1).
+  apply Nat.le_antisymm.
+  - apply NoDup_incl_length.
+    + (* mid is injective on the needed positions *)
+      apply NoDup_map_inj_in; [|apply needed_list_NoDup].
+      intros p q Hp Hq E.
+      destruct (Hmid p Hp) as [j [u [A1 [A2 [A3 [-> [A5 A6]]]]]]].
+      destruct (Hmid q Hq) as [j' [u' [B1 [B2 [B3 [-> [B5 B6]]]]]]].
+      rewrite A5, B5 in E. rewrite (mid_odd j u A1), (mid_odd j' u' B1) in E.
+      apply odd_pow_inj in E. destruct E as [E1 ->]. replace j' with j by lia. reflexivity.
+    + intros m Hm. apply in_map_iff in Hm. destruct Hm as [p [<- Hp]].
+      destruct (Hmid p Hp) as [j [u [A1 [A2 [A3 [-> [A5 A6]]]]]]].
+      apply in_seq. rewrite A5 in *. pose proof (pow2_pos (j - 1)). lia.
+  - apply NoDup_incl_length; [apply seq_NoDup|].
+    intros m Hm. apply in_seq in Hm.
+    destruct (odd_decomp m ltac:(lia)) as [j [u [Hj Hu]]].
+    assert (Hjk : j <= k).
+    { destruct (Nat.le_gt_cases j k) as [|Hgt]; [assumption|].
+      pose proof (Nat.pow_le_mono_r 2 k (j - 1) ltac:(lia) ltac:(lia)). fold live in Hcap. nia. }
+    assert (Hu2 : u < 2 ^ (k - j)).
+    { pose proof (pow2_split k j Hjk) as Hs. pose proof (pow2_half j Hj) as Hh. pose proof (pow2_pos (j - 1)).
+      fold live in Hcap. destruct (Nat.lt_ge_cases u (2 ^ (k - j))) as [|Hge]; [assumption|]. nia. }
+    apply in_map_iff. exists (pos k j u). split.
+    + rewrite mid_pos by assumption. rewrite mid_odd by assumption. lia.
+    + apply in_needed_list. split; [apply pos_internal; assumption|].
+      apply (needed_iff cf L k Hcap j u Hj Hjk Hu2). right. rewrite mid_odd by assumption. fold live. lia.
+Qed.
+
+
+Lemma needed_small p : live <= 1 -> p < n ->
+  (needed cf (2 ^ k) live p = true <-> p = 0 /\ c_has_zero cf = true /\ live = 1).
+Proof.
+  intros Hl Hp. destruct (pos_coords k p Hp) as [j [u [A1 [A2 [A3 ->]]]]]. unfold live in *.
+  rewrite (needed_iff cf L k Hcap j u A1 A2 A3). pose proof (pow2_pos (j - 1)).
+  split; [intros [G|G]; [exact G|lia]|intros G; left; exact G].
+Qed.
+
+Lemma needed_count_zero_singleton : c_has_zero cf = true -> 1 <= k -> live = 1 -> length needed_list = 1.
+Proof.
+  intros Hz Hk Hl.
+  assert (Hn : 0 < n) by (unfold n; rewrite internals_pow2; pose proof (pow2_ge2 k Hk); lia).
+  transitivity (length [0]); [|reflexivity]. apply Nat.le_antisymm.
+  - apply NoDup_incl_length; [apply needed_list_NoDup|].
+    intros p Hp. apply in_needed_list in Hp. destruct Hp as [H1 H2].
+    apply needed_small in H2; [|lia|assumption]. left. symmetry. apply H2.
+  - apply NoDup_incl_length; [repeat constructor; intros []|].
+    intros p [<-|[]]. apply in_needed_list. split; [exact Hn|]. apply needed_small; [lia|exact Hn|auto].
+Qed.
+
+Lemma needed_count_none : live = 0 \/ (live = 1 /\ c_has_zero cf = false) -> length needed_list = 0.
+Proof.
+  intros Hl. assert (Hi : incl needed_list []).
+  { intros p Hp. apply in_needed_list in Hp. destruct Hp as [H1 H2].
+    apply needed_small in H2; [|lia|assumption]. destruct H2 as [_ [Hz H1']]. destruct Hl as [Hl|[_ Hl]]; [lia|congruence]. }
+  destruct needed_list as [|x r]; [reflexivity|]. exfalso. apply (Hi x). left. reflexivity.
+Qed.
+
+End Count.
+
+Lemma filter_map_length {A B} (g : B -> bool) (h : A -> B) l :
+  length (filter g (map h l)) = length (filter (fun x => g (h x)) l).
+Proof. induction l as [|a r IH]; simpl; [reflexivity|]. destruct (g (h a)); simpl; rewrite IH; reflexivity. Qed.
+
+Definition is_some {A} (o : option A) : bool := match o with Some _ => true | None => false end.
+
+Lemma count_present (combs : list (option comb)) :
+  length (filter is_some combs) = length (filter (present combs) (seq 0 (length combs))).
+Proof.
+  induction combs as [|a r IH]; [reflexivity|].
+  cbn [length seq]. rewrite <- seq_shift. cbn [filter].
+  assert (Hr : length (filter (present (a :: r)) (map S (seq 0 (length r)))) = length (filter (present r) (seq 0 (length r)))).
+  { rewrite filter_map_length. reflexivity. }
+  unfold present at 1. cbn [nth_opt]. destruct a; cbn [is_some length]; rewrite IH, Hr; reflexivity.
+Qed.
+
+(* combiner_count: n live leaves use exactly n - 1 combiners; a singleton with a zero uses one; an empty
+   collection, or a singleton without zero, none *)
+Theorem combiner_count_number cf (L : list leaf) k combs :
+  length L <= 2 ^ k -> (c_has_zero cf = true -> 1 <= k) -> wf_presence cf L k combs ->
+  length (filter is_some combs) =
+    if 2 <=? length L then length L - 1
+    else if c_has_zero cf && (length L =? 1) then 1 else 0.
+Proof.
+  intros Hcap Hz [Hlen Hpres]. rewrite count_present. rewrite Hlen.
+  assert (He : filter (present combs) (seq 0 (internals (2 ^ k))) = needed_list cf L k).
+  { unfold needed_list. apply filter_ext_in. intros p Hp. apply in_seq in Hp. apply Hpres. lia. }
+  rewrite He.
+  destruct (2 <=? length L) eqn:E2.
+  - apply Nat.leb_le in E2. apply needed_count_many; assumption.
+  - apply Nat.leb_gt in E2. destruct (c_has_zero cf) eqn:Ez; cbn [andb].
+    + destruct (length L =? 1) eqn:E1.
+      * apply Nat.eqb_eq in E1. apply needed_count_zero_singleton; auto.
+      * apply Nat.eqb_neq in E1. apply needed_count_none; [assumption|]. left. lia.
+    + apply needed_count_none; [assumption|]. destruct (length L) as [|[|m]]; [left; reflexivity|right; auto|lia].
+Qed.
+
+(* ... for every state the invariant holds of, i.e. (reduce_eq_fold_cycle) after every evaluated cycle *)
+Lemma state_combiner_count f cf st s vals : pub_inv f cf st s vals ->
+  combiner_count s =
+    if 2 <=? length (r_leaves s) then length (r_leaves s) - 1
+    else if c_has_zero cf && (length (r_leaves s) =? 1) then 1 else 0.
+Proof.
+  intros [k [_ [[T1 T2 T3 T4 T5] _]]]. unfold combiner_count.
+  change (fun oc : option comb => match oc with Some _ => true | None => false end) with (@is_some comb).
+  apply (combiner_count_number cf (r_leaves s) k (r_combs s) T2 T3 T4).
+Qed.
